@@ -144,7 +144,7 @@ Crisp(a) ==
                                   (~UsedByFK(a.t, a.c) /\ ~UsedByCheck(a.t, a.c) /\ ~UsedByView(a.t, a.c))
     [] a.op = "DropIndex" -> Exists(a.t) => ~InAnyFK(a.t)
     [] a.op = "AddPrimaryKey" -> (Exists(a.t) /\ Range(a.cols) \subseteq ColNamesOf(a.t)) => \A c \in Range(a.cols) : ColOf(a.t, c).nn
-    [] a.op = "DropPrimaryKey" -> Exists(a.t) => ~IsParent(a.t)
+    [] a.op = "DropPrimaryKey" -> Exists(a.t) => ~InAnyFK(a.t)      \* the key may be the index a foreign key needs
     [] a.op = "AddForeignKey" ->
          (Exists(a.t) /\ Exists(a.rt) /\ a.c \in ColNamesOf(a.t) /\ a.rc \in ColNamesOf(a.rt)) =>
            /\ a.t # a.rt
